@@ -3,8 +3,9 @@
    Lib/Proto.v instantiated at the descriptors regenerated from the .proto
    files; the length-prefixed readers in front of it by Decode/Model.v.  All
    statements are for every byte string shorter than 2^63 (every Go slice). *)
-From Bifrost Require Import Lib.Base Lib.Varint Lib.Proto Lib.ProtoProofs.
+From Bifrost Require Import Lib.Base Lib.Varint Lib.Proto Lib.ProtoProofs Lib.ProtoFuel.
 From Bifrost Require Import Decode.Model Decode.Proofs gen.Descs gen.Decode.
+From Bifrost Require Id.Model Id.Proofs.
 
 (* the decoder of ANY message descriptor returns a value or an error: no index,
    slice or conversion on its path can panic (never reads past the input) *)
@@ -16,6 +17,13 @@ Print Assumptions c40_decode_total.
 Theorem c40_decode_terminates : forall d buf, len buf < two63 -> decode d buf <> Err E_FUEL.
 Proof. exact decode_fuel_ok. Qed.
 Print Assumptions c40_decode_terminates.
+
+(* ... and the result is the same for every larger fuel: it is the result of
+   the unbounded Go loop, not an artefact of the bound *)
+Theorem c40_decode_fuel_independent : forall d buf fuel, len buf < two63 -> (length buf < fuel)%nat ->
+  dec_fields fuel d buf 0 = decode d buf.
+Proof. exact decode_fuel_independent. Qed.
+Print Assumptions c40_decode_fuel_independent.
 
 (* allocation: the byte strings it builds (bytes/string fields, unknown-field
    records) sum to at most the input length, and so does the number of values *)
@@ -81,6 +89,21 @@ Print Assumptions c40_establish_alloc.
 Theorem c40_establish_total : forall pre max d s, len s < two63 -> snd (read_establish pre max d s) <> Panic.
 Proof. exact read_establish_no_panic. Qed.
 Print Assumptions c40_establish_total.
+
+(* peer IDs and public keys: the multihash / base58 / key parsers are modelled
+   and tied to peer/id.go and crypto/crypto.go by C10 (Id/); restated here
+   because C40 names them.  They never panic either. *)
+Theorem c40_peer_id_total : forall b, Id.Model.id_from_bytes b <> Panic.
+Proof. exact Id.Proofs.id_from_bytes_total. Qed.
+Print Assumptions c40_peer_id_total.
+
+Theorem c40_peer_id_b58_total : forall s, Id.Model.idb58_decode s <> Panic.
+Proof. exact Id.Proofs.idb58_decode_total. Qed.
+Print Assumptions c40_peer_id_b58_total.
+
+Theorem c40_pubkey_total : forall d, all_bytes d = true -> Id.Model.unmarshal_pub d <> Panic.
+Proof. exact Id.Proofs.unmarshal_pub_total. Qed.
+Print Assumptions c40_pubkey_total.
 
 (* non-vacuity: a SignedMsg with a nested Signature, an unknown field and a
    group is accepted; a prefix announcing 2^31 bytes is refused before any
